@@ -8,7 +8,8 @@
               and an un-escaped spelling of the same line have the same index; -1 = a line the
               projection does not know)
      "Read"   read_mbox_format_mail(BytesIO(data)): n = number of results ("-1" = raised),
-              toks[k] = indices of the line tokens visible in result k (subject + bodies)
+              toks[k] = indices of the line tokens visible in result k (subject + bodies),
+              units[k] = number of units of result k
    TLC recomputes Messages(lines) from the declarative part of Mbox.tla.                     *)
 EXTENDS Mbox, Json, IOUtils, TLCExt
 
@@ -32,6 +33,8 @@ TraceRead == /\ IsEvent("Read")
              /\ Ev.n = Len(msgs)
              /\ Len(Ev.toks) = Len(msgs)
              /\ \A k \in DOMAIN msgs : Range(Ev.toks[k]) \subseteq Range(msgs[k])
+             /\ \A k \in DOMAIN Ev.units : Ev.units[k] >= 1     \* every message has at least one unit (C03),
+                                                                \* also one made of header lines only
 
 TraceInit == /\ tid \in 1..Len(Traces) /\ l = 1
              /\ msgs = Messages(Traces[tid].hdr.lines)
